@@ -260,13 +260,13 @@ macro_rules! H {
 //@ harness: step_ihw0_all props=C01,C02,C07,C09 tier=quick class=functional covers=4 mem=10 timeout=900 est=60
 //@ bounds: state initial-IHW, check all its: arbitrary 80-bit word x current RDH (stop, page, orbit, BC, trigger, data format symbolic) x packet offset < 2^40
 H!(step_ihw0_all, step_ihw(St::Ihw0, 2));
-//@ harness: step_ihw0_sanity props=C01,C02,C07,C09 tier=quick class=functional covers=3 mem=10 timeout=900 est=60
+//@ harness: step_ihw0_sanity props=C01,C02,C09 also=C07 tier=quick class=functional covers=3 mem=10 timeout=900 est=60
 //@ bounds: state initial-IHW, check sanity its: same inputs; the stop-bit running rule must NOT be reported
 H!(step_ihw0_sanity, step_ihw(St::Ihw0, 1));
-//@ harness: step_cihw_all props=C01,C02,C07,C09 tier=quick class=functional covers=3 mem=10 timeout=900 est=60
+//@ harness: step_cihw_all props=C01,C02,C09 also=C07 tier=quick class=functional covers=3 mem=10 timeout=900 est=60
 //@ bounds: state continuation-IHW (after TDT packet_done=0, next packet), check all its
 H!(step_cihw_all, step_ihw(St::CIhw, 2));
-//@ harness: step_ihw_after_ddw0_all props=C01,C02,C07,C09 tier=thorough class=functional covers=4 mem=10 timeout=900 est=60
+//@ harness: step_ihw_after_ddw0_all props=C01,C02 also=C07,C09 tier=thorough class=functional covers=4 mem=10 timeout=900 est=60
 //@ bounds: state IHW after DDW0 (next HBF), check all its
 H!(step_ihw_after_ddw0_all, step_ihw(St::IhwAfterDdw0, 2));
 
@@ -379,22 +379,22 @@ fn step_tdh(mode: u8, which: u8) {
     kani::cover!(which != 0 || (!sane && f.id == ID_TDH && f.tt != 0), "reserved bits");
     core::mem::forget(c);
 }
-//@ harness: step_tdh_all_sane props=C01,C02,C07,C09 tier=quick class=functional covers=4 mem=10 timeout=900 est=60
+//@ harness: step_tdh_all_sane props=C01,C02,C09 also=C07 tier=quick class=functional covers=4 mem=10 timeout=900 est=60
 //@ bounds: state TDH-after-IHW, check all its: TDH with arbitrary id, reserved bits, trigger type, internal/no_data flags and bc (continuation 0, orbit = RDH orbit; RDH page 1): silent iff sane, else [E40] at the word; offset < 2^40, data format {0,2}
 H!(step_tdh_all_sane, step_tdh(2, 0));
-//@ harness: step_tdh_sanity_sane props=C01,C02,C09 tier=thorough class=functional covers=4 mem=10 timeout=900 est=60
+//@ harness: step_tdh_sanity_sane props=C01,C02 also=C09 tier=thorough class=functional covers=4 mem=10 timeout=900 est=60
 //@ bounds: same under check sanity its
 H!(step_tdh_sanity_sane, step_tdh(1, 0));
-//@ harness: step_tdh_all_e42 props=C02,C07 tier=quick class=functional covers=4 mem=10 timeout=900 est=40
+//@ harness: step_tdh_all_e42 props=C02 also=C07 tier=quick class=functional covers=4 mem=10 timeout=900 est=40
 //@ bounds: state TDH-after-IHW, check all its: conforming TDH except continuation = 1: exactly one report, [E42], at the word (any offset, data format)
 H!(step_tdh_all_e42, step_tdh(2, 1));
 //@ harness: step_tdh_all_e444 props=C02,C07 tier=quick class=functional covers=4 mem=10 timeout=900 est=40
 //@ bounds: ... except orbit = any value != RDH orbit: exactly one report, [E444], at the word
 H!(step_tdh_all_e444, step_tdh(2, 2));
-//@ harness: step_tdh_all_e445 props=C02,C07 tier=quick class=functional covers=4 mem=10 timeout=900 est=40
+//@ harness: step_tdh_all_e445 props=C02 also=C07 tier=quick class=functional covers=4 mem=10 timeout=900 est=40
 //@ bounds: ... RDH page 0, internal trigger: bc = any value != RDH bc: exactly one report, [E445], at the word
 H!(step_tdh_all_e445, step_tdh(2, 3));
-//@ harness: step_tdh_all_e44 props=C02,C07 tier=quick class=functional covers=4 mem=10 timeout=900 est=40
+//@ harness: step_tdh_all_e44 props=C02 also=C07 tier=quick class=functional covers=4 mem=10 timeout=900 est=40
 //@ bounds: ... trigger type = any value != RDH trigger type[11:0]: exactly one report, [E44], at the word
 H!(step_tdh_all_e44, step_tdh(2, 4));
 //@ harness: step_tdh_sanity_running_silent props=C02 tier=quick class=functional covers=4 mem=10 timeout=900 est=40
@@ -461,26 +461,26 @@ fn step_choice_tdh(st: St, mode: u8, which: u8, no_data: bool) {
     kani::cover!(which != 0 || !sane, "insane");
     core::mem::forget(c);
 }
-//@ harness: step_choice_tdh_done_sane props=C01,C02,C07,C09 tier=quick class=functional covers=2 mem=10 timeout=900 est=40
+//@ harness: step_choice_tdh_done_sane props=C01,C02,C09 also=C07 tier=quick class=functional covers=2 mem=10 timeout=900 est=40
 //@ bounds: state after TDT packet_done=1, check all its: TDH with arbitrary trigger-type low byte (internal trigger 0), orbit and reserved byte 71:64, bc above the previous TDH's: silent iff sane else [E40] (all 2^80 sanity verdicts: C11)
 H!(step_choice_tdh_done_sane, step_choice_tdh(St::AfterTdtDone, 2, 0, false));
-//@ harness: step_choice_tdh_nodata_sane props=C01,C02,C07,C09 tier=quick class=functional covers=2 mem=10 timeout=900 est=40
+//@ harness: step_choice_tdh_nodata_sane props=C01,C02 also=C07,C09 tier=quick class=functional covers=2 mem=10 timeout=900 est=40
 //@ bounds: state after a no-data TDH, check all its: same
 H!(step_choice_tdh_nodata_sane, step_choice_tdh(St::AfterNoData, 2, 0, true));
-//@ harness: step_choice_tdh_e440 props=C02,C07 tier=quick class=functional covers=2 mem=10 timeout=900 est=40
+//@ harness: step_choice_tdh_e440 props=C02 also=C07 tier=quick class=functional covers=2 mem=10 timeout=900 est=40
 //@ bounds: state after TDT packet_done=1, check all its: conforming TDH with any bc below the previous TDH's: exactly one report, [E440], at the word
 H!(step_choice_tdh_e440, step_choice_tdh(St::AfterTdtDone, 2, 1, false));
-//@ harness: step_choice_tdh_cont props=C02,C07 tier=quick class=functional covers=2 mem=10 timeout=900 est=40
+//@ harness: step_choice_tdh_cont props=C02 also=C07 tier=quick class=functional covers=2 mem=10 timeout=900 est=40
 //@ bounds: state after TDT packet_done=1, check all its: conforming TDH except continuation = 1 (documented: must be 0): reported with a TDH code [E4x] at the word
 H!(step_choice_tdh_cont, step_choice_tdh(St::AfterTdtDone, 2, 2, false));
 //@ harness: step_choice_tdh_e440_sanity props=C02 tier=quick class=functional covers=2 mem=10 timeout=900 est=40
 //@ bounds: same under check sanity its: not reported
 H!(step_choice_tdh_e440_sanity, step_choice_tdh(St::AfterTdtDone, 1, 1, false));
 
-//@ harness: step_choice_ihw_done props=C01,C02,C07,C09 tier=quick class=functional covers=2 mem=10 timeout=900 est=60
+//@ harness: step_choice_ihw_done props=C01,C02 also=C07,C09 tier=quick class=functional covers=2 mem=10 timeout=900 est=60
 //@ bounds: state after TDT packet_done=1, check all its, RDH stop bit 0: IHW with arbitrary 72 non-id bits: silent iff sane else [E30]
 H!(step_choice_ihw_done, step_ihw_choice(St::AfterTdtDone, 2, 0));
-//@ harness: step_choice_ihw_done_e12 props=C02,C07 tier=quick class=functional covers=2 mem=10 timeout=900 est=60
+//@ harness: step_choice_ihw_done_e12 props=C02 also=C07 tier=quick class=functional covers=2 mem=10 timeout=900 est=60
 //@ bounds: same with RDH stop bit 1: [E12] at the word (plus [E30] iff insane)
 H!(step_choice_ihw_done_e12, step_ihw_choice(St::AfterTdtDone, 2, 1));
 
@@ -542,16 +542,16 @@ fn step_choice_ddw0(st: St, mode: u8, which: u8) {
     kani::cover!(which != 0 || (!sane && w[8] & 0xF0 != 0), "index not 0");
     core::mem::forget(c);
 }
-//@ harness: step_choice_ddw0_sane props=C01,C02,C07,C09 tier=quick class=functional covers=2 mem=10 timeout=900 est=40
+//@ harness: step_choice_ddw0_sane props=C01,C02 also=C07,C09 tier=quick class=functional covers=2 mem=10 timeout=900 est=40
 //@ bounds: state after TDT packet_done=1, check all its, RDH stop 1 page 1: DDW0 with arbitrary 72 non-id bits: silent iff sane else [E60]
 H!(step_choice_ddw0_sane, step_choice_ddw0(St::AfterTdtDone, 2, 0));
-//@ harness: step_choice_ddw0_nodata_sane props=C01,C02,C09 tier=thorough class=functional covers=2 mem=10 timeout=900 est=40
+//@ harness: step_choice_ddw0_nodata_sane props=C01,C02 also=C09 tier=thorough class=functional covers=2 mem=10 timeout=900 est=40
 //@ bounds: state after a no-data TDH: same
 H!(step_choice_ddw0_nodata_sane, step_choice_ddw0(St::AfterNoData, 2, 0));
 //@ harness: step_choice_ddw0_e110 props=C02,C07 tier=quick class=functional covers=2 mem=10 timeout=900 est=40
 //@ bounds: conforming DDW0 while the RDH stop bit is 0: exactly one report, [E110], at the word
 H!(step_choice_ddw0_e110, step_choice_ddw0(St::AfterTdtDone, 2, 1));
-//@ harness: step_choice_ddw0_e111 props=C02,C07 tier=quick class=functional covers=2 mem=10 timeout=900 est=40
+//@ harness: step_choice_ddw0_e111 props=C02 also=C07 tier=quick class=functional covers=2 mem=10 timeout=900 est=40
 //@ bounds: conforming DDW0 while the RDH page counter is 0: exactly one report, [E111], at the word
 H!(step_choice_ddw0_e111, step_choice_ddw0(St::AfterTdtDone, 2, 2));
 //@ harness: step_choice_ddw0_e110_sanity props=C02 tier=quick class=functional covers=2 mem=10 timeout=900 est=40
@@ -583,7 +583,7 @@ fn step_choice_illegal(st: St) {
 //@ harness: step_choice_illegal_done props=C09,C02,C07 tier=quick class=functional covers=2 mem=10 timeout=900 est=40
 //@ bounds: state after TDT packet_done=1: every identifier byte other than TDH/IHW/DDW0: [E992] and the fallback DDW0 sanity error [E60], at the word
 H!(step_choice_illegal_done, step_choice_illegal(St::AfterTdtDone));
-//@ harness: step_choice_illegal_nodata props=C09,C02,C07 tier=quick class=functional covers=2 mem=10 timeout=900 est=40
+//@ harness: step_choice_illegal_nodata props=C09,C02 also=C07 tier=quick class=functional covers=2 mem=10 timeout=900 est=40
 //@ bounds: state after a no-data TDH: every identifier byte other than TDH/IHW/DDW0: [E990] and the fallback TDH sanity error [E40], at the word
 H!(step_choice_illegal_nodata, step_choice_illegal(St::AfterNoData));
 
@@ -644,19 +644,19 @@ fn step_ctdh(mode: u8, which: u8) {
     kani::cover!(which != 0 || (!sane && f.id != ID_TDH), "wrong id in a single-successor state");
     core::mem::forget(c);
 }
-//@ harness: step_ctdh_all_sane props=C01,C02,C07,C09 tier=quick class=functional covers=2 mem=10 timeout=900 est=40
+//@ harness: step_ctdh_all_sane props=C01,C02,C09 also=C07 tier=quick class=functional covers=2 mem=10 timeout=900 est=40
 //@ bounds: state continuation-TDH, check all its: TDH with arbitrary identifier and reserved byte 71:64, other fields = remembered TDH with continuation 1: silent iff sane else [E40]
 H!(step_ctdh_all_sane, step_ctdh(2, 0));
-//@ harness: step_ctdh_e41 props=C02,C07 tier=quick class=functional covers=2 mem=10 timeout=900 est=40
+//@ harness: step_ctdh_e41 props=C02 also=C07 tier=quick class=functional covers=2 mem=10 timeout=900 est=40
 //@ bounds: continuation TDH with continuation bit 0: exactly one report, [E41]
 H!(step_ctdh_e41, step_ctdh(2, 1));
 //@ harness: step_ctdh_e441 props=C02,C07 tier=quick class=functional covers=2 mem=10 timeout=900 est=40
 //@ bounds: continuation TDH with any bc != remembered: exactly one report, [E441]
 H!(step_ctdh_e441, step_ctdh(2, 2));
-//@ harness: step_ctdh_e442 props=C02,C07 tier=quick class=functional covers=2 mem=10 timeout=900 est=40
+//@ harness: step_ctdh_e442 props=C02 also=C07 tier=quick class=functional covers=2 mem=10 timeout=900 est=40
 //@ bounds: continuation TDH with any orbit != remembered: exactly one report, [E442]
 H!(step_ctdh_e442, step_ctdh(2, 3));
-//@ harness: step_ctdh_e443 props=C02,C07 tier=quick class=functional covers=2 mem=10 timeout=900 est=40
+//@ harness: step_ctdh_e443 props=C02 also=C07 tier=quick class=functional covers=2 mem=10 timeout=900 est=40
 //@ bounds: continuation TDH with any trigger type != remembered: exactly one report, [E443]
 H!(step_ctdh_e443, step_ctdh(2, 4));
 //@ harness: step_ctdh_e441_sanity props=C02 tier=thorough class=functional covers=2 mem=10 timeout=900 est=40
@@ -761,33 +761,39 @@ fn step_data(st: St, mode: u8, class: u8, ob_id: u8) {
     kani::cover!(class != 3 || id == ID_TDH, "TDH in the data position");
     core::mem::forget(c);
 }
-//@ harness: step_data_tdt props=C01,C02,C07,C09 tier=quick class=functional covers=8 mem=10 timeout=900 est=40
+//@ harness: step_data_tdt props=C01,C02 also=C07,C09 tier=quick class=functional covers=8 mem=10 timeout=900 est=40
 //@ bounds: state Data, check all its: TDT with byte 8 = 0x01 (packet_done) and arbitrary bits 63:0: silent iff sane else [E50] at the word
 H!(step_data_tdt, step_data(St::Data2, 2, 0, 1));
-//@ harness: step_data_tdt_notdone props=C01,C02,C07,C09 tier=quick class=functional covers=8 mem=10 timeout=900 est=40
+//@ harness: step_data_tdt_notdone props=C01,C02 also=C07,C09 tier=quick class=functional covers=8 mem=10 timeout=900 est=40
 //@ bounds: same with packet_done = 0
 H!(step_data_tdt_notdone, step_data(St::Data2, 2, 0, 0));
-//@ harness: step_cdata_tdt props=C01,C02,C09 tier=thorough class=functional covers=8 mem=10 timeout=900 est=40
+//@ harness: step_cdata_tdt props=C01,C02 also=C09 tier=thorough class=functional covers=8 mem=10 timeout=900 est=40
 //@ bounds: state continuation Data, packet_done = 1
 H!(step_cdata_tdt, step_data(St::CData, 2, 0, 1));
-//@ harness: step_data_ib props=C01,C02,C07,C09 tier=quick class=functional covers=8 mem=12 timeout=900 est=60
+//@ harness: step_data_ib props=C01,C02,C07 also=C09 tier=quick class=functional covers=8 mem=12 timeout=900 est=60
 //@ bounds: state Data, check all its: IB data word id 0x25 with arbitrary data bytes x arbitrary 28-bit IHW lane mask: [E72] iff lane 5 inactive (all ids x masks: C11 c11_ib_lane)
 H!(step_data_ib, step_data(St::Data, 2, 1, 0x25));
-//@ harness: step_data_ib_invalid props=C02,C07,C09 tier=quick class=functional covers=8 mem=12 timeout=900 est=60
+//@ harness: step_data_ib_invalid props=C02,C09 also=C07 tier=quick class=functional covers=8 mem=12 timeout=900 est=60
 //@ bounds: state Data after a data word: word with the IB-class id 0x2B (outside 0x20..=0x28): [E991] and [E70] at the word
 H!(step_data_ib_invalid, step_data(St::Data2, 2, 1, 0x2B));
 //@ harness: step_data_ib_sanity props=C01,C02 tier=quick class=functional covers=8 mem=12 timeout=900 est=60
 //@ bounds: as step_data_ib under check sanity its: the lane rule is not reported
 H!(step_data_ib_sanity, step_data(St::Data, 1, 1, 0x25));
-//@ harness: step_data_ob43 props=C01,C02,C07,C09 tier=quick class=functional covers=8 mem=12 timeout=900 est=60
+//@ harness: step_data_ob43 props=C01,C02 also=C07,C09 tier=quick class=functional covers=8 mem=12 timeout=900 est=60
 //@ bounds: state Data after a data word, check all its: OB data word id 0x43 (connector 0 input 3) x arbitrary lane mask: [E71] iff lane 3 inactive (all ids x masks: C11 c11_ob_lane)
 H!(step_data_ob43, step_data(St::Data2, 2, 2, 0x43));
-//@ harness: step_data_ob5e props=C01,C02,C07 tier=thorough class=functional covers=8 mem=12 timeout=900 est=60
+//@ harness: step_data_ob5e props=C01,C02 also=C07 tier=thorough class=functional covers=8 mem=12 timeout=900 est=60
 //@ bounds: same for id 0x5E (connector 3 input 6, lane 27)
 H!(step_data_ob5e, step_data(St::Data2, 2, 2, 0x5E));
-//@ harness: step_data_illegal props=C09,C02,C07 tier=quick class=functional covers=8 mem=12 timeout=900 est=60
+//@ harness: step_data_illegal props=C09,C02 also=C07 tier=quick class=functional covers=8 mem=12 timeout=900 est=60
 //@ bounds: state Data: every identifier outside the data classes other than TDT/CDW (IHW, TDH, DDW0, unknown): [E991] and [E70] at the word
 H!(step_data_illegal, step_data(St::Data2, 1, 3, 0));
+//@ harness: step_data_cdw_late_sanity props=C02,C09 also=C07 tier=quick class=functional covers=8 mem=10 timeout=900 est=40
+//@ bounds: state Data after a data word, check sanity its: a word with the CDW identifier (arbitrary content) is no longer legal: [E70] at the word
+H!(step_data_cdw_late_sanity, step_data(St::Data2, 1, 4, 0));
+//@ harness: step_data_cdw_late_all props=C02,C09 also=C07 tier=quick class=functional covers=8 mem=10 timeout=900 est=40
+//@ bounds: same under check all its
+H!(step_data_cdw_late_all, step_data(St::Data2, 2, 4, 0));
 //@ harness: step_data_cdw_first props=C01,C09 tier=quick class=functional covers=8 mem=10 timeout=900 est=40
 //@ bounds: state Data at payload start: a CDW with arbitrary content is accepted silently (first CDW of the link)
 H!(step_data_cdw_first, step_data(St::Data, 2, 4, 0));
@@ -796,7 +802,7 @@ H!(step_data_cdw_first, step_data(St::Data, 2, 4, 0));
 // C12: a payload ending in more than 15 bytes of 0xFF is reported once at the RDH, no word of it
 // is examined, and the next packet is judged from the initial state
 // =============================================================================================
-//@ harness: step_bad_padding props=C12,C02,C07 tier=quick class=functional covers=1 mem=12 timeout=1200 est=90
+//@ harness: step_bad_padding props=C12,C02,C07,C04 tier=quick class=functional covers=1 mem=12 timeout=1200 est=90
 //@ bounds: validator in the Data state (mid-packet), then packets whose payload is 16 resp. 24 bytes of 0xFF, symbolic packet offset and data format: exactly one message each, an error at the RDH offset; no word checked; the following IHW is accepted silently (state was reset)
 #[kani::proof]
 #[kani::unwind(26)]
